@@ -1,5 +1,5 @@
 #!/bin/bash
-# F35-F38: six small files on which the readers crashed (found by a 15-minute libFuzzer run over readLPF/readMPS in both read
+# F35-F38, F40: seven small files on which the readers crashed (found by a 15-minute libFuzzer run over readLPF/readMPS in both read
 # modes, then minimised by hand; dollar.mps was predicted by rule R13.10 before it was tried).  Each is read by the soplex binary
 # in floating-point and in rational read mode; every run must end with exit status 0 and a syntax-error / warning message.
 #   nullobj.mps  ROWS line ' N'  (no objective name)   rational reader: strlen(nullptr)                 F35
@@ -7,11 +7,12 @@
 #   badcol.lp    'Gener y <= 3' / badcol2.lp 'x-ind'   both readers: assert(LPFisColName(pos))          F36
 #   badnum.mps   coefficient '1).'                     rational reader: assert(all_of(isdigit))         F37
 #   dollar.mps   BOUNDS line holding only a '$' comment both readers: strcmp(nullptr, "LO")             F38
+#   range_twice.mps two RANGES entries for one row      both readers: assert(lhs == rhs)                 F40
 # usage: reader_crash_inputs.sh [path to soplex binary]   (default /repo/_build/bin/soplex)
 bin=${1:-/repo/_build/bin/soplex}
 dir=$(dirname "$0")/inputs
 rc=0
-for f in nullobj.mps nullrow.mps badnum.mps badcol.lp badcol2.lp dollar.mps; do
+for f in nullobj.mps nullrow.mps badnum.mps badcol.lp badcol2.lp dollar.mps range_twice.mps; do
   for mode in "" "--readmode=1 --solvemode=2"; do
     "$bin" $mode "$dir/$f" >/dev/null 2>&1; e=$?
     if [ $e -ne 0 ]; then echo "$f [$mode]: exit $e (crash)"; rc=1; else echo "$f [$mode]: ok"; fi
